@@ -17,7 +17,9 @@
 #include "util/pcqueue.hh"
 #include "util/threaded_buffered_stream.hh"
 
+#include <chrono>
 #include <condition_variable>
+#include <new>
 #include <map>
 #include <mutex>
 #include <thread>
@@ -43,6 +45,8 @@ struct Th {
   bool done = false;
   bool harness = true;
   Pending pend;
+  void *announced = 0;   // mutex named by the last lock hook, not yet checked against the real lock
+  int really = -1;       // id of a mutex found really held instead of the announced one
 };
 
 struct Step {
@@ -64,11 +68,13 @@ struct Sched {
   std::vector<long> count;
   std::map<void *, int> mutex_id;
   std::vector<bool> held;
+  std::vector<int> owner;
+  std::string anomaly;   // e.g. a lock_guard that does not hold the mutex its hook names
   std::vector<Step> trace;
 
   void reset(bool f) {
     th.clear(); running = -1; nrunning = 0; expected = 0;
-    sems.clear(); count.clear(); mutex_id.clear(); held.clear(); trace.clear();
+    sems.clear(); count.clear(); mutex_id.clear(); held.clear(); owner.clear(); anomaly.clear(); trace.clear();
     fine = f;
   }
   int sem_index(void *s) {
@@ -81,6 +87,7 @@ struct Sched {
     int id = (int)mutex_id.size();
     mutex_id[m] = id;
     held.push_back(false);
+    owner.push_back(-1);
     return id;
   }
 };
@@ -140,17 +147,61 @@ void preprocess_verif_mutex_lock(void *m) {
   int id;
   { std::lock_guard<std::mutex> lk(G.mu); id = G.mutex_index(m); }
   park(K_LOCK, m, "L" + std::to_string(id));
+  { std::lock_guard<std::mutex> lk(G.mu); G.owner[id] = tls_tid; G.th[tls_tid].announced = m; }
 }
 void preprocess_verif_mutex_unlock(void *m) {
   if (!G.active || tls_tid < 0 || !G.fine) return;
   int id;
   // the real unlock has already happened (scope end): the mutex is free from now on, and this is a
   // plain scheduling point, so that code placed between the unlock and the post can be interleaved
-  { std::lock_guard<std::mutex> lk(G.mu); id = G.mutex_index(m); G.held[id] = false; }
+  {
+    std::lock_guard<std::mutex> lk(G.mu);
+    id = G.mutex_index(m); G.held[id] = false; G.owner[id] = -1;
+    Th &me = G.th[tls_tid];
+    me.announced = 0;
+    if (me.really >= 0) { G.held[me.really] = false; G.owner[me.really] = -1; me.really = -1; }
+  }
   park(K_YIELD, m, "U" + std::to_string(id));
 }
+// First scheduling point inside a critical section: does the real lock_guard hold the mutex the lock hook
+// named?  (All other managed threads are parked, so a mutex that is free in the simulation must be free for
+// real; glibc's try_lock on a mutex owned by the caller fails with EBUSY.)  If not, the simulation follows the
+// REAL locks from here on, so that the consequences (two threads in one critical section) are executed.
+void check_real_lock() {
+  std::lock_guard<std::mutex> lk(G.mu);
+  Th &me = G.th[tls_tid];
+  if (!me.announced) return;
+  std::mutex *named = static_cast<std::mutex *>(me.announced);
+  int id = G.mutex_index(me.announced);
+  me.announced = 0;
+  if (!named->try_lock()) return;           // held, as announced
+  named->unlock();
+  G.anomaly += " LOCK-MISMATCH:t" + std::to_string(tls_tid) + "/L" + std::to_string(id);
+  G.held[id] = false; G.owner[id] = -1;
+  for (std::map<void *, int>::iterator i = G.mutex_id.begin(); i != G.mutex_id.end(); ++i) {
+    if (G.held[i->second]) continue;
+    std::mutex *other = static_cast<std::mutex *>(i->first);
+    if (other->try_lock()) { other->unlock(); continue; }
+    G.held[i->second] = true; G.owner[i->second] = tls_tid; me.really = i->second;
+  }
+}
+
+// An exception left a critical section: the lock_guard released the real mutex without passing the unlock hook.
+void harness_unwound() {
+  if (!G.active || tls_tid < 0 || !G.fine) return;
+  std::lock_guard<std::mutex> lk(G.mu);
+  Th &me = G.th[tls_tid];
+  me.announced = 0; me.really = -1;
+  for (std::map<void *, int>::iterator i = G.mutex_id.begin(); i != G.mutex_id.end(); ++i) {
+    if (!G.held[i->second] || G.owner[i->second] != tls_tid) continue;
+    std::mutex *mx = static_cast<std::mutex *>(i->first);
+    if (mx->try_lock()) { mx->unlock(); G.held[i->second] = false; G.owner[i->second] = -1; }
+  }
+}
+
 void preprocess_verif_yield(const char *where) {
   if (!G.active || tls_tid < 0 || !G.fine) return;
+  check_real_lock();
   // tag = last component of the name
   const char *dot = strrchr(where, '.');
   park(K_YIELD, 0, std::string("y") + (dot ? dot + 1 : where));
@@ -183,13 +234,15 @@ void preprocess_verif_thread_join(void) {
 namespace {
 
 // ---------------------------------------------------------------- items
+thread_local bool tls_throw_copy = false;
 struct Item {
   int v;
   Item() : v(-1) {}
   explicit Item(int x) : v(x) {}
   Item(const Item &o) : v(o.v) {}
   Item(Item &&o) : v(o.v) { o.v = -2; }
-  Item &operator=(const Item &o) { v = o.v; return *this; }
+  // copy-assignment fails once on demand (like bad_alloc while copying a large string out of the queue)
+  Item &operator=(const Item &o) { if (tls_throw_copy) { tls_throw_copy = false; throw std::bad_alloc(); } v = o.v; return *this; }
   Item &operator=(Item &&o) { v = o.v; o.v = -2; return *this; }
 };
 
@@ -289,6 +342,7 @@ bool run_once(const Scenario &sc, const std::function<int(size_t, unsigned)> &ch
   std::string file;
   std::vector<size_t> wsizes;
   int flushes = 0;
+  int thrown = 0;
   bool joined = false;
 
   if (sc.kind == "usq") {
@@ -319,13 +373,30 @@ bool run_once(const Scenario &sc, const std::function<int(size_t, unsigned)> &ch
         bodies.push_back([q, p, n] { for (long i = 0; i < n; ++i) q->Produce(Item((int)(p * 1000000 + i + 1))); });
       }
     }
+    // cswap=0,1,..: per-consumer method (1 = ConsumeSwap, 0 = Consume(T&)); cthrow=k,..: the copy-out of that
+    // consumer's k-th Consume(T&) call throws once (k = 0: never); the consumer catches and calls Consume again
+    std::vector<long> cswap = sc.list("cswap"), cthrow = sc.list("cthrow");
+    int *nthrown = &thrown;
     for (size_t c = 0; c < cons.size(); ++c) {
       long n = cons[c];
       std::vector<int> *g = &got[c];
-      if (sc.num("swap", 0)) {
+      long thr = c < cthrow.size() ? cthrow[c] : 0;
+      if (c < cswap.size() ? cswap[c] != 0 : sc.num("swap", 0) != 0) {
         bodies.push_back([q, n, g] { for (long i = 0; i < n; ++i) { Item o; q->ConsumeSwap(o); g->push_back(o.v); } });
       } else {
-        bodies.push_back([q, n, g] { for (long i = 0; i < n; ++i) { Item o; q->Consume(o); g->push_back(o.v); } });
+        bodies.push_back([q, n, g, thr, nthrown] {
+          for (long i = 0; i < n; ++i) {
+            Item o;
+            bool need = true;
+            if (thr && i + 1 == thr) {
+              tls_throw_copy = true;
+              try { q->Consume(o); need = false; } catch (const std::bad_alloc &) { harness_unwound(); __sync_fetch_and_add(nthrown, 1); }
+              tls_throw_copy = false;
+            }
+            if (need) q->Consume(o);
+            g->push_back(o.v);
+          }
+        });
       }
     }
   } else if (sc.kind == "ring") {
@@ -422,7 +493,13 @@ bool run_once(const Scenario &sc, const std::function<int(size_t, unsigned)> &ch
       }
       G.running = t;
       G.cv.notify_all();
-      G.cv.wait(lk, [] { return G.nrunning == 0 && G.running == -1; });
+      // a scheduled thread that blocks OUTSIDE a scheduling point (a real mutex the simulation believes free)
+      // would hang the scheduler: report it as a deadlock of that thread
+      if (!G.cv.wait_for(lk, std::chrono::seconds(10), [] { return G.nrunning == 0 && G.running == -1; })) {
+        G.anomaly += " REAL-BLOCK:t" + std::to_string(t) + "@" + s.tag;
+        deadlock = true;
+        break;
+      }
     }
   }
   if (deadlock) {
@@ -430,6 +507,7 @@ bool run_once(const Scenario &sc, const std::function<int(size_t, unsigned)> &ch
     std::ostringstream os;
     os << "DEADLOCK";
     for (size_t i = 0; i < G.th.size(); ++i) if (!G.th[i].done) os << " t" << i << "@" << G.th[i].pend.tag;
+    os << G.anomaly;
     result = os.str();
     for (size_t i = 0; i < threads.size(); ++i) threads[i].detach();
     return false;
@@ -444,7 +522,9 @@ bool run_once(const Scenario &sc, const std::function<int(size_t, unsigned)> &ch
     os << "got=";
     for (size_t c = 0; c < got.size(); ++c) { if (c) os << ";"; os << join_ints(got[c]); }
   }
+  if (thrown) os << " thrown=" << thrown;
   if (!result.empty()) os << " " << result;
+  os << G.anomaly;
   result = os.str();
   usq.reset();
   pcq.reset();
